@@ -10,6 +10,7 @@
 mod rng;
 mod c16;
 mod c13;
+mod c12;
 
 use std::io::{BufRead, Write};
 
@@ -53,6 +54,7 @@ fn lookup(id: &str) -> Option<(&'static str, Gen, Exec)> {
     match id {
         "C16" => Some(("C16", c16::generate, c16::exec)),
         "C13" => Some(("C13", c13::generate, c13::exec)),
+        "C12" => Some(("C12", c12::generate, c12::exec)),
         _ => None,
     }
 }
